@@ -36,9 +36,9 @@ def playback(scratch, env, h, feats, is_tests):
     if is_tests:
         base.append('--tests')
     cmd = base + ['--harness', h['name'], '-Z', 'concrete-playback', '--concrete-playback=inplace']
-    # the replay is a courtesy, the verdict is already FAILED: a long trace (observed: > 5 min of trace processing for a harness with
-    # several loops) or a kani-driver that hangs after CBMC has exited (observed twice: futex wait, cbmc defunct) must not hold the Kani lock for 25 minutes
-    p = subprocess.run(cmd, cwd=scratch, env=env, stdout=subprocess.PIPE, stderr=subprocess.STDOUT, timeout=300)
+    # kani-driver needs minutes to turn a long trace into a playback test (observed: 5-7 min for harnesses with several loops, CBMC
+    # already exited); the replay only happens after a FAILED verdict, so a generous cap costs nothing on a tree where the property holds
+    p = subprocess.run(cmd, cwd=scratch, env=env, stdout=subprocess.PIPE, stderr=subprocess.STDOUT, timeout=900)
     out = p.stdout.decode('utf-8', 'replace')
     test = None
     vals = None
